@@ -45,8 +45,9 @@ func genTree(c *core.Ctx, depth int, scalarsOnly bool) map[string]any {
 	for i := 0; i < n; i++ {
 		k := c15Keys[c.Rng.Intn(len(c15Keys))]
 		switch x := c.Rng.Intn(7); {
-		case x < 2 && depth < 3 && !scalarsOnly:
-			m[k] = genTree(c, depth+1, false)
+		case x < 2 && depth < 3:
+			// command-line sources (scalarsOnly) address nested keys with dotted paths: sections yes, lists no
+			m[k] = genTree(c, depth+1, scalarsOnly)
 		case x == 2:
 			m[k] = c.Rng.Intn(1000)
 		case x == 3:
